@@ -224,6 +224,28 @@ def tlc(module, cfg, workdir=None, workers=None, timeout=600, env_extra=None, ex
     return r
 
 
+def apalache(module, init, inv, length, timeout=600):
+    """Apalache (symbolic, unbounded integers): `check --init --inv --length` on spec/<module>.tla in a scratch directory.
+    Returns (ok, tail of the output, seconds).  Used for inductive-invariant steps; a failure is a specification matter."""
+    wd = scratch_dir("apalache")
+    try:
+        for f in os.listdir(SPEC):
+            if f.endswith(".tla"):
+                shutil.copyfile(os.path.join(SPEC, f), os.path.join(wd, f))
+        t0 = time.time()
+        try:
+            p = subprocess.run(["apalache-mc", "check", "--init=" + init, "--inv=" + inv, "--length=%d" % length, "--out-dir=" + os.path.join(wd, "_out"), module + ".tla"],
+                               cwd=wd, stdout=subprocess.PIPE, stderr=subprocess.STDOUT, text=True, timeout=timeout)
+            out = p.stdout
+        except (subprocess.TimeoutExpired, OSError) as e:
+            raise Inconclusive("apalache-mc %s %s/%s: %s" % (module, init, inv, e))
+        ok = "The outcome is: NoError" in out
+        log("[apalache] %s init=%s inv=%s length=%d: %s, %.1fs" % (module, init, inv, length, "no error" if ok else "ERROR", time.time() - t0))
+        return ok, out[-1500:], time.time() - t0
+    finally:
+        shutil.rmtree(wd, ignore_errors=True)
+
+
 def tlc_must_pass(module, cfg, **kw):
     """Design-level model checking: a violation here is NOT a verdict about the code (DESIGN.md, P1)."""
     r = tlc(module, cfg, **kw)
